@@ -110,7 +110,9 @@ fn run_c13(args: Args) {
             let e = &reg[ti];
             let heavy = e.flags() & F_HEAVY != 0;
             let pos = e.flags() & F_POS != 0 && ffi_ok;
+            let long_ok = e.can_grow() && !matches!(args.lane.as_str(), "valgrind" | "miri");
             let kind = match phase % 8 {
+                5 if long_ok && phase % 40 == 5 => c13::Kind::LongList,
                 0 | 4 if !heavy => c13::Kind::Perturb,
                 0 if phase % 32 == 0 => c13::Kind::Perturb,
                 2 if pos && phase % 16 == 2 => c13::Kind::V2VectorPerturb,
